@@ -70,7 +70,6 @@ class Lifted:
         S, A, E = pb.S, pb.A, pb.E
         self.S, self.A, self.E = S, A, E
         self.pre = []
-        self.concrete = {k: np.asarray(getattr(pb, k)) for k in ("T", "R", "P", "V0")}
         ss = np.asarray(pb._ss)
         if lift_T:
             pb.T = sym(f"T{tag}", (S, A, E, pb.ds), "int")
@@ -102,6 +101,9 @@ class Lifted:
 
     def T_pairs(self, Tvec_concrete):
         return assignment_pairs(self.Tvec, Tvec_concrete)
+
+    def prob_constraints_ge0(self):
+        return [p >= 0 for p in self.P.flat if zx.is_z(p)]
 
     def prob_constraints(self, positive=False):
         cons = []
